@@ -7,7 +7,7 @@ PROPS = {
         "prop_files": ["Katib/Props/C11.lean"],
         "n": {"quick": 20000, "thorough": 1000000},
         "rule": "seeded random metric logs (0-200 entries, 5 metric names, float syntaxes, non-numeric texts, equal/out-of-order/"
-                "invalid timestamps) x strategy lists (0-4 names, duplicates); a case is non-trivial when both the log and the "
+                "invalid timestamps) x strategy lists (0-4 names, duplicates); one case in three goes the controller's own way: the real manager client asks an in-process gRPC DB manager metric by metric (objective = first strategy, additional = the rest) and getMetrics runs on what it assembled; a case is non-trivial when both the log and the "
                 "strategy list are non-empty; distinct = distinct op line",
         "trusted": ["strconv.ParseFloat and time.Parse are oracles (key / ts on the op line); NaN/Inf never generated"],
         "modelled": ["getMetrics (trial_controller_util.go) as Katib.Metrics.getMetrics"],
@@ -21,7 +21,7 @@ PROPS = {
     "C05": {
         "prop_files": ["Katib/Props/C05.lean"],
         "n": {"quick": 30000, "thorough": 600000},
-        "rule": "seeded random (spec, stored status, trial list) triples: 0-40 trials with realistic or arbitrary condition subsets "
+        "rule": "seeded random (spec, stored status, trial list) triples: 0-40 trials (some under deletion with their finalizer) with realistic or arbitrary condition subsets "
                 "(True/False, duplicates), 0-2 metrics each with min/max/latest texts (numeric syntaxes, ties, negatives, 'unavailable', "
                 "occasionally non-numeric), strategies min/max/latest/invalid, stale lists in the stored status; non-trivial = at least one "
                 "trial carries an observation with a metric; distinct = distinct op line",
@@ -97,8 +97,8 @@ PROPS = {
     },
     "C08": {
         "prop_files": ['Katib/Props/C08.lean', 'Katib/Props/C01World.lean'],
-        "streams": [('SIM', {'quick': 240, 'thorough': 8000})],
-        "rule": "seeded random schedules of the three real reconcilers on the fake client (1-2 experiments, optionally equally named in two namespaces; maxTrialCount 1-4/unset, parallel 1-3, maxFailed, goal, three resume policies, early stopping, retain, push collector), ops = reconciles with per-kind monotone lagging views (random lag, stalled informers, one kind's cache held for several reconciles - also exactly at the Experiment copy from before its verdict), write-fault masks, abort points, algorithm reply faults (short/long/error, rules RPC error), job outcomes, metric arrival (also after the verdict), early stop, deployment ready, external removal of a completed trial's run object; then fault-free settling to quiescence, a quiescence probe, optionally one or two budget raises each with a second settling, and optionally a teardown in which Trials are deleted and reconciled while the database call or the finalizer write fails; every op's write log and the whole store are compared with the Lean model; a case = one schedule; distinct = distinct op sequence",
+        "streams": [('SIM', {'quick': 240, 'thorough': 8000}), ('C08S', {'quick': 3000, 'thorough': 100000})],
+        "rule": "seeded random schedules of the three real reconcilers on the fake client (1-2 experiments, optionally equally named in two namespaces; maxTrialCount 1-4/unset, parallel 1-3, maxFailed, goal, three resume policies, early stopping, retain, push collector), ops = reconciles with per-kind monotone lagging views (random lag, stalled informers, one kind's cache held for several reconciles - also exactly at the Experiment copy from before its verdict), write-fault masks, abort points, algorithm reply faults (short/long/error, rules RPC error), job outcomes, metric arrival (also after the verdict), early stop, deployment ready, external removal of a completed trial's run object; then fault-free settling to quiescence, a quiescence probe, optionally one or two budget raises each with a second settling, and optionally a teardown in which Trials are deleted and reconciled while the database call or the finalizer write fails; every op's write log and the whole store are compared with the Lean model; a case = one schedule; distinct = distinct op sequence; stream C08S: sequences of 1-6 real SyncAssignments calls with growing requests against a service that proposes points from a 2x2 space and (3 of 4 cases) leaves the naming to Katib, replies ok/short/long/error; names canonicalised by first appearance; model Katib.Drv.syncRound",
         "trusted": ["controller-runtime fake client stands in for the kube-apiserver (rv conflicts, status subresource, AlreadyExists)",
                     "fake algorithm / early-stopping / DB-manager services", "typed reads inside a reconcile come from a snapshot (informer cache), run objects are read live"],
         "modelled": ["ReconcileExperiment.Reconcile / ReconcileSuggestion.Reconcile / ReconcileTrial.Reconcile and helpers as Katib.Ctl.expPlan / sugPlan / trialPlan",
@@ -134,7 +134,7 @@ PROPS = {
     "C19": {
         "prop_files": ["Katib/Props/C19.lean"],
         "n": {"quick": 6000, "thorough": 300000},
-        "rule": "seeded random Report/Get/Delete requests against the real mysql and postgres dbConn behind a recording database/sql driver: "
+        "rule": "seeded random Report/Get/Delete requests through the DB manager's own gRPC handlers (cmd/db-manager/v1beta1/main.go, compiled by `go build -overlay` with a stdio driver from /verif/harness/dbm; nothing written to /repo) over the real mysql and postgres dbConn behind a recording database/sql driver, and directly against the dbConn (a difference is tagged): "
                 "missing observation_log, entries without metric, empty/invalid/zoned timestamps, SQL metacharacters, placeholders and format verbs as data, "
                 "canned result rows incl. unparsable times; statement text and bound arguments compared exactly; non-trivial = the request is not a plain delete",
         "trusted": ["time.Parse/Format as oracle (formatted value on the op line)", "the go/ast call-site translator (kvh extract db)"],
@@ -210,7 +210,7 @@ PROPS = {
     "C14": {
         "prop_files": ["Katib/Props/C14.lean", "Katib/Props/C14Template.lean"],
         "n": {"quick": 6000, "thorough": 300000},
-        "rule": "generated Experiments before defaulting (names incl. dots, upper case, trailing hyphen/newline, 40/41 characters; budgets nil/-1..6; objective, algorithm, early stopping, "
+        "rule": "generated Experiments before defaulting (names incl. dots, upper case, trailing hyphen/newline, 40/41 characters; budgets nil/-1..6, and clean experiments with exactly one budget field off; objective, algorithm, early stopping, "
                 "resume policy valid/invalid/nil; 0-3 parameters of every type with valid, empty, mixed and duplicated spaces and names; NAS config; inline Job/TFJob/CRD templates and "
                 "ConfigMap templates with declared/undeclared/unused placeholders, metadata references (Name, Labels[k] present/absent, unknown keys), missing apiVersion, fixed name, "
                 "unconvertible Job fields; collector kinds x nil/partial sources, ports, filters) plus one random field of the spec zeroed by reflection, x three katib-config contents; run "
@@ -252,7 +252,7 @@ PROPS = {
         "prop_files": ["Katib/Props/C13.lean"],
         "n": {"quick": 8000, "thorough": 300000},
         "rule": "TEXT logs (default filter and four custom two-group filters incl. two filters at once; several metrics per line, noise lines, lines without space, valid/invalid/missing "
-                "first-token timestamps, random byte lines) and JSON-lines logs (string / numeric / missing / wrong-typed timestamps with 0-10 fractional digits, negative and huge "
+                "first-token timestamps, random byte lines, lines of 3-9 kB) and JSON-lines logs (records up to 70 kB; string / numeric / missing / wrong-typed timestamps with 0-10 fractional digits, negative and huge "
                 "numbers, non-string metric values, empty and invalid lines) x tracked-metric lists (1-3 names, duplicates; rarely empty); written to a temp file and read by the real "
                 "CollectObservationLog; non-trivial = at least one tracked metric",
         "trusted": ["regexp, strings.Contains/SplitN/TrimSpace, time.Parse, encoding/json, strconv are oracles evaluated by the harness independently of the collector code"],
@@ -266,7 +266,7 @@ PROPS = {
     "C20": {
         "prop_files": ["Katib/Props/C20.lean"],
         "n": {"quick": 2800, "thorough": 60000},
-        "rule": "every route of the UI server except the index/static ones and fetch_trial_logs (real clientset) x {user header present/absent} x RBAC script "
+        "rule": "every route of the UI server except the index/static ones and fetch_trial_logs (real clientset) x {user header present/absent} x USERID_PREFIX variants x RBAC script (also: only the first review of a request allowed = resource-granular RBAC; second review fails) "
                 "{deny all, allow all, allow namespace a, allow namespace b} x request namespace {a, b}, served by the real handlers through httptest on a fake client holding "
                 "experiments, trials, suggestions and template ConfigMaps in two namespaces; SubjectAccessReviews are answered by the script, every API call is recorded; case k uses "
                 "route k mod #routes so all routes are covered",
@@ -282,8 +282,8 @@ PROPS = {
         "prop_files": ["Katib/Props/C02.lean"],
         "n": {"quick": 4000, "thorough": 200000},
         "rule": "template trees (depth <= 4, placeholders repeated and nested in maps/arrays, literals with $, ${, }, <&>, non-ASCII, backslashes, partial placeholder syntax) x 1-4 declared "
-                "trial parameters referencing assignments or trial metadata (Name, Namespace, Kind, APIVersion, Labels[k], Annotations[k], illegal ones) x assignments (clean values; "
-                "rarely missing/extra) through the real GetRunSpecWithHyperParameters from an inline trialSpec or a ConfigMap (YAML or JSON); plus batches of 1-4 assignments turned into "
+                "trial parameters (free-form names: letters, '-', '.', '/', '~', '+', non-ASCII) referencing assignments or trial metadata (Name, Namespace, Kind, APIVersion, Labels[k], Annotations[k], illegal ones) x assignments (clean values; "
+                "rarely missing/extra) through the real GetRunSpecWithHyperParameters from an inline trialSpec or a ConfigMap (JSON, or YAML whose scalars are re-typed by the YAML engine: the oracle there is textual substitution then YAML parse; a YAML text that a value would break falls back to JSON); plus batches of 1-4 assignments turned into "
                 "Trials by the real getTrialInstance on one Experiment object (labels, owner, rules); distinct = distinct op line",
         "trusted": ["JSON/YAML (de)serialisation (ConvertUnstructuredToString / ConvertStringToUnstructured) and the reference regexps are oracles",
                     "the harness's independent tree substitution (tree=) is the oracle for ConfigMap/YAML templates"],
